@@ -120,7 +120,9 @@ def build_tree(cfg, mols, noise, missing_guard):
         emit(DEFAULTS)
         include("ff/types.itp", "ff/types.itp", at_text)
         include("ff/types.itp", "ff/types.itp", at_text)
-        emit(BONDTYPES)
+        # the file with the bond types is reached twice as well: as for cpp, its text counts every time (entries listed twice)
+        include("ff/bt.itp", "ff/bt.itp", BONDTYPES)
+        include("ff/bt.itp", "ff/bt.itp", BONDTYPES)
     # ---- missing file behind an inactive condition
     if missing_guard:
         kind = "ifndef" if M_defined_at_eval else "ifdef"
@@ -315,7 +317,7 @@ def check_tree(cfg, mols, noise, missing_guard):
                          (["1", "0.27", "500"], {"tag": "SOFT", "condition": "ifdef"})]}
     n_inc = 2 if cfg["ff"] == "twice" else 1
     got_bt = {k: [(p, m) for p, m in v] for k, v in bt.items()}
-    if {k: v for k, v in got_bt.items()} != {k: v for k, v in want_bt.items()}:
+    if {k: v for k, v in got_bt.items()} != {k: v * n_inc for k, v in want_bt.items()}:
         bad("type-tables-read", f"bondtypes {got_bt}")
     got_blocks = {k: v[0] for k, v in dt["blocks"].items()}
     if got_blocks != exp["blocks"]:
